@@ -73,11 +73,16 @@ func runC13(c *Ctx) error {
 				}
 			}
 			// a message that never ends: every fragment within the limit, the sum far above it, no FIN
-			for vi, stream := range unfinishedOversize(server, limit) {
-				for _, pmd := range []bool{false, true} {
-					spec := connSpec{Server: server, PMD: pmd, RLimit: limit}
-					if err := c13One(c, spec, stream, fmt.Sprintf("server=%v limit=%d unfinished variant=%d pmd=%v wire=%d", server, limit, vi, pmd, len(stream)), limit); err != nil {
-						return err
+			for _, rsv1 := range []bool{false, true} {
+				for vi, stream := range unfinishedOversize(server, limit, rsv1) {
+					for _, pmd := range []bool{false, true} {
+						if rsv1 && !pmd {
+							continue // RSV1 without the extension is a protocol error at the first frame: C03
+						}
+						spec := connSpec{Server: server, PMD: pmd, RLimit: limit}
+						if err := c13One(c, spec, stream, fmt.Sprintf("server=%v limit=%d unfinished variant=%d pmd=%v compressed=%v wire=%d", server, limit, vi, pmd, rsv1, len(stream)), limit); err != nil {
+							return err
+						}
 					}
 				}
 			}
@@ -139,7 +144,8 @@ func runC13(c *Ctx) error {
 
 // unfinishedOversize: streams of one data frame without FIN followed by continuation frames without FIN; each frame is
 // within the limit, the sum is 40 times the limit (5 times for limits above 4096).
-func unfinishedOversize(server bool, limit int) [][]byte {
+// rsv1: the first frame carries RSV1 (a compressed message that is never finished)
+func unfinishedOversize(server bool, limit int, rsv1 bool) [][]byte {
 	var out [][]byte
 	for _, fsz := range []int{limit, (limit + 1) / 2, 1} {
 		total := 40 * limit
@@ -159,7 +165,7 @@ func unfinishedOversize(server bool, limit int) [][]byte {
 			if i == 0 {
 				op = 2
 			}
-			stream = append(stream, encodeFrame(frameSpec{Fin: false, Opcode: op, Masked: server, Key: [4]byte{5, 5, 5, byte(i)}, Payload: make([]byte, fsz), DeclLen: -1})...)
+			stream = append(stream, encodeFrame(frameSpec{Fin: false, Rsv1: rsv1 && i == 0, Opcode: op, Masked: server, Key: [4]byte{5, 5, 5, byte(i)}, Payload: make([]byte, fsz), DeclLen: -1})...)
 			sent += fsz
 		}
 		out = append(out, stream)
